@@ -125,10 +125,10 @@ type AbMsg2_ULeaf struct {
 	ULeaf *AbLeaf `protobuf:"bytes,108,opt,name=u_leaf,oneof"`
 }
 type AbMsg2_OInt64 struct {
-	OInt64 int64 `protobuf:"varint,110,opt,name=o_int64,oneof"`
+	OInt64 int64 `protobuf:"varint,98,opt,name=o_int64,oneof"`
 }
 type AbMsg2_OString struct {
-	OString string `protobuf:"bytes,111,opt,name=o_string,oneof"`
+	OString string `protobuf:"bytes,99,opt,name=o_string,oneof"`
 }
 
 func (*AbMsg2_UBool) isAbMsg2Union()    {}
